@@ -176,13 +176,13 @@ theorem C12_sig_numeric {σ : Ren} (h : Mono σ) (f : CForm) : signatureZ (f.ren
   unfold signatureZ
   rw [formData_rename h true f (Or.inl rfl)]
 
-def vcoef : CExpr := .term (.coeff 0 ⟨mesh0 1, "V"⟩ [2])
-def scoef (c : Nat) : CExpr := .term (.coeff c ⟨mesh0 1, "P"⟩ [])
+def vcoef : CExpr := .term (.coeff 0 { mesh := mesh0 1, elem := "V" } [2])
+def scoef (c : Nat) : CExpr := .term (.coeff c { mesh := mesh0 1, elem := "P" } [])
 /-- `conditional(f < g, 0*v[i], v[i]) * v[i]` summed over i = index 3 -/
 def zform (i : Nat) : CForm :=
   [{ integrand := .op .indexSum [] [.op .product [] [.op .indexed [] [vcoef, .mi [.free i]],
         .op .conditional [] [.op .lT [] [scoef 1, scoef 2], .zero [] [(i, 2)], .op .indexed [] [vcoef, .mi [.free i]]]], .mi [.free i]],
-     itype := "cell", mesh := mesh0 1, sub := .str "everywhere", metadata := [] }]
+     itype := "cell", mesh := mesh0 1, sub := .str "everywhere", metadata := .t [] }]
 
 /-- the same form built after one more Index has been created has another signature: the hash data of the `Zero` is its
     repr `Zero((), (3,), (2,))` / `Zero((), (4,), (2,))` -/
@@ -268,7 +268,7 @@ theorem C12_build_partial {ν : Ren} (h : Mono ν) (p : List Instr) (st : BState
 
 /-- `c1 = Constant(mesh); c2 = Constant(mesh); (c1*c2)*dx` — ten constants created earlier change its signature -/
 def prodProg : List Instr := [.mesh "E" 2 2, .const 0 [], .const 0 [], .product 0 1]
-def prodSpec : List IntegralSpec := [{ expr := 2, itype := "cell", mesh := 0, sub := .str "everywhere", metadata := [] }]
+def prodSpec : List IntegralSpec := [{ expr := 2, itype := "cell", mesh := 0, sub := .str "everywhere", metadata := .t [] }]
 
 theorem C12_history_counterexample :
     ¬ (∀ (ν : Ren), Mono ν → ∀ (p : List Instr) (spec : List IntegralSpec),
